@@ -5,7 +5,7 @@ no join handles, no abort handles, no hosted commands), under the direct host, o
   ND    a stored task suspended only at closed requests is on the ready queue (it is evicted by the poll that leaves it so,
         unless that poll woke it — then it is queued and evicted by the next one).
 -/
-import CruxVerif.Lemmas.NoReg
+import CruxVerif.Lemmas.NoAbort
 namespace M.Rt
 
 /-- every stored task of command `c` is simple -/
@@ -131,6 +131,66 @@ theorem spawnNewTasks_sp (c : Nat) (w : World) (hs : SPc c w) : SPc c (spawnNewT
       · intro x t' ht'; exact Or.inl ht'
   exact hP (w.cmd c).spawnQ _ hs.s h0
 
+
+/-! ### nothing is aborted (simple programs have no handles) -/
+
+theorem runTaskF_na (pn) (f : Nat) (c tid : Nat) (w : World) (st : TaskState) (w' : World)
+    (h : runTaskF (pollBlock pn f) c tid w = some (st, w')) (hw : HFc c w) (hs : SPc c w) (hq : NAb w) : NAb w' := by
+  unfold runTaskF at h
+  split at h
+  · simp only [Option.some.injEq, Prod.mk.injEq] at h; obtain ⟨_, rfl⟩ := h; exact hq
+  · rename_i t hg
+    have htf : hostFreeB t.fut = true := hw.t t (Slab.mem_values_of_get _ _ _ hg)
+    have hts : simpleB t.fut = true := hs.t t (Slab.mem_values_of_get _ _ _ hg)
+    split at h
+    · simp only [Option.some.injEq, Prod.mk.injEq] at h; obtain ⟨_, rfl⟩ := h; exact hq
+    · dsimp only at h
+      have q0 : NAb ({ w with nextSerial := w.nextSerial + 1 } : World) := hq.of_same rfl rfl
+      split at h
+      · cases h
+      · rename_i env1 w1 hpoll
+        simp only [Option.some.injEq, Prod.mk.injEq] at h
+        obtain ⟨_, rfl⟩ := h
+        exact pollBlock_nagood pn f _ _ _ _ _ _ hpoll htf hts q0
+      · rename_i b w1 hpoll
+        have q1 : NAb w1 := pollBlock_nagood pn f _ _ _ _ _ _ hpoll htf hts q0
+        split at h
+        · simp only [Option.some.injEq, Prod.mk.injEq] at h; obtain ⟨_, rfl⟩ := h; exact q1.of_same rfl rfl
+        · simp only [Option.some.injEq, Prod.mk.injEq] at h; obtain ⟨_, rfl⟩ := h; exact q1.of_same rfl rfl
+
+theorem dropTask_na (w : World) (t : Task) (ht : hostFreeB t.fut = true) (hq : NAb w) : NAb (w.dropTask t) := by
+  unfold World.dropTask M.Rt.dropTask
+  simp only
+  exact nab_dropBlock (w := w.modMeta t.serial fun m => { m with taskAlive := false, joinWakers := [] }) t.fut ht
+    (nab_modMeta _ _ (fun _ hm => hm) hq)
+
+theorem finishTask_na (c tid : Nat) (w : World) (hw : HFc c w) (hq : NAb w) : NAb (finishTask c tid w) := by
+  unfold finishTask
+  simp only
+  split
+  · exact hq
+  · rename_i t tasks hr
+    have htm : t ∈ (w.cmd c).tasks.values := by
+      have : (w.cmd c).tasks.get? tid = some t := by
+        cases hg : (w.cmd c).tasks.get? tid with
+        | none => rw [Slab.remove_none _ _ hg] at hr; cases hr
+        | some t' =>
+          have := (Slab.remove_get _ _ _ hg).1
+          rw [hr] at this; simp only [Option.some.injEq] at this; rw [this]
+      exact Slab.mem_values_of_get _ _ _ this
+    have htf := hw.t t htm
+    refine dropTask_na _ t htf (nab_wakeAll _ _ ?_)
+    exact nab_modMeta _ _ (fun _ hm => hm) (nab_modCmd _ _ hq)
+
+theorem spawnNewTasks_na (c : Nat) (w : World) (hq : NAb w) : NAb (spawnNewTasks c w) := by
+  unfold spawnNewTasks
+  have : ∀ (l : List Task) (W : World), NAb W → NAb (l.foldl (fun w t => w.modCmd c fun x =>
+      { x with tasks := (x.tasks.insert t).2, ready := x.ready ++ [(x.tasks.insert t).1] }) W) := by
+    intro l
+    induction l with
+    | nil => intro W h; exact h
+    | cons t l ih => intro W h; simp only [List.foldl_cons]; exact ih _ (nab_modCmd _ _ h)
+  exact this _ _ (nab_modCmd _ _ hq)
 
 /-! ### a stored task suspended only at closed requests is queued -/
 
@@ -366,6 +426,7 @@ structure CL (c : Nat) (w : World) : Prop where
   inr : c < w.cmds.length
   hf : HFc c w
   sp : SPc c w
+  na : NAb w
   nd : ND c none w
 
 theorem drainReady_cl (c : Nat) : ∀ (f : Nat) (w w' : World), drainReady runTask f c w = some w' → CL c w → CL c w' := by
@@ -394,6 +455,7 @@ theorem drainReady_cl (c : Nat) : ∀ (f : Nat) (w w' : World), drainReady runTa
       have in0 : c < w0.cmds.length := by subst hw0; simp only [World.modCmd, modifyNth_length]; exact hw.inr
       have hf0 : HFc c w0 := by subst hw0; exact hw.hf.modCmd _ (fun _ _ h => Or.inl h) (fun _ _ h => Or.inl h)
       have sp0 : SPc c w0 := by subst hw0; exact hw.sp.modCmd _ (fun _ _ h => Or.inl h) (fun _ _ h => Or.inl h)
+      have na0 : NAb w0 := by subst hw0; exact nab_modCmd _ _ hw.na
       have nd0 : ND c (some tid) w0 := by
         intro tid' t' hg' hne hd
         rw [e0t] at hg'
@@ -407,25 +469,25 @@ theorem drainReady_cl (c : Nat) : ∀ (f : Nat) (w w' : World), drainReady runTa
         · exact h1
       -- after the task has run
       have after : ∀ (st : TaskState) (w1 : World), runTask c tid w0 = some (st, w1) →
-          SOk w1 ∧ (w1.cmd c).alive = true ∧ c < w1.cmds.length ∧ HFc c w1 ∧ SPc c w1 ∧ ND c (some tid) w1 := by
+          SOk w1 ∧ (w1.cmd c).alive = true ∧ c < w1.cmds.length ∧ HFc c w1 ∧ SPc c w1 ∧ NAb w1 ∧ ND c (some tid) w1 := by
         intro st w1 hrt
         have hrt' : runTaskF (pollBlock (pollNextF (runUntilSettledF (runTaskF (pollAt 63)))) loopFuel) c tid w0 = some (st, w1) := by
           rw [← runTask_eq]; exact hrt
         have q := runTaskF_q _ _ c tid w0 st w1 hrt' hf0
         have fr := runTaskF_frame _ _ c tid w0 st w1 hrt' hf0
         refine ⟨(runTask_ok c tid w0 st w1 hrt sok0).1, by rw [q.1.alive c]; exact al0, by rw [q.1.len]; exact in0, q.2,
-          runTaskF_sp _ _ c tid w0 st w1 hrt' hf0 sp0, ?_⟩
+          runTaskF_sp _ _ c tid w0 st w1 hrt' hf0 sp0, runTaskF_na _ _ c tid w0 st w1 hrt' hf0 sp0 na0, ?_⟩
         intro tid' t' hg' hne hd
         have hne' : tid' ≠ tid := fun e => hne (by rw [e])
         rw [fr.1 tid' hne'] at hg'
         exact fr.2 tid' (nd0 tid' t' hg' hne hd)
       have fin : ∀ (st : TaskState) (w1 : World), runTask c tid w0 = some (st, w1) → CL c (finishTask c tid w1) := by
         intro st w1 hrt
-        obtain ⟨a1, a2, a3, a4, a5, a6⟩ := after st w1 hrt
+        obtain ⟨a1, a2, a3, a4, a5, a7, a6⟩ := after st w1 hrt
         have q := finishTask_q c tid w1 a4
         have fr := finishTask_frame c tid w1 a4 a3
         refine ⟨(finishTask_keeps c tid w1 a1).1, by rw [q.1.alive c]; exact a2, by rw [q.1.len]; exact a3, q.2,
-          finishTask_sp c tid w1 a4 a5, ?_⟩
+          finishTask_sp c tid w1 a4 a5, finishTask_na c tid w1 a4 a7, ?_⟩
         intro tid' t' hg' _ hd
         obtain ⟨hg1, hne1⟩ := fr.1 tid' t' hg'
         by_cases e : tid' = tid
@@ -436,8 +498,8 @@ theorem drainReady_cl (c : Nat) : ∀ (f : Nat) (w w' : World), drainReady runTa
       split at h
       · cases h
       · rename_i w1 hrt
-        obtain ⟨a1, a2, a3, a4, a5, a6⟩ := after _ w1 hrt
-        refine ih w1 w' h ⟨a1, a2, a3, a4, a5, ?_⟩
+        obtain ⟨a1, a2, a3, a4, a5, a7, a6⟩ := after _ w1 hrt
+        refine ih w1 w' h ⟨a1, a2, a3, a4, a5, a7, ?_⟩
         intro tid' t' hg' _ hd
         by_cases e : tid' = tid
         · subst e
@@ -445,8 +507,8 @@ theorem drainReady_cl (c : Nat) : ∀ (f : Nat) (w w' : World), drainReady runTa
           rw [this] at hg'; cases hg'
         · exact a6 tid' t' hg' (fun e' => e (Option.some.inj e')) hd
       · rename_i w1 hrt
-        obtain ⟨a1, a2, a3, a4, a5, a6⟩ := after _ w1 hrt
-        refine ih w1 w' h ⟨a1, a2, a3, a4, a5, ?_⟩
+        obtain ⟨a1, a2, a3, a4, a5, a7, a6⟩ := after _ w1 hrt
+        refine ih w1 w' h ⟨a1, a2, a3, a4, a5, a7, ?_⟩
         intro tid' t' hg' _ hd
         by_cases e : tid' = tid
         · subst e
@@ -469,7 +531,7 @@ theorem settleLoop_cl (c : Nat) : ∀ (f : Nat) (w w' : World), settleLoop runTa
     have q := spawnNewTasks_q c w hw.hf
     have k0 : CL c (spawnNewTasks c w) :=
       ⟨(spawnNewTasks_keeps c w hw.sok).1, by rw [q.1.alive c]; exact hw.alive, by rw [q.1.len]; exact hw.inr, q.2,
-        spawnNewTasks_sp c w hw.sp, spawnNewTasks_nd c w hw.inr hw.nd⟩
+        spawnNewTasks_sp c w hw.sp, spawnNewTasks_na c w hw.na, spawnNewTasks_nd c w hw.inr hw.nd⟩
     split at h
     · simp only [Option.some.injEq] at h; subst h; exact k0
     · split at h
@@ -499,7 +561,17 @@ theorem runUntilSettled_cl (c : Nat) (w w' : World) (h : runUntilSettled c w = s
       have := q.1.len
       simp only [World.modCmd, modifyNth_length] at this
       rw [this]; exact hw.inr
-    refine ⟨hsok, by rw [q.1.alive c]; exact hw.alive, by rw [q.1.len]; exact hw.inr, q.2, ?_, ?_⟩
+    have hN : ∀ (l : List Task) (W : World), (∀ t ∈ l, hostFreeB t.fut = true) → NAb W →
+        NAb (l.foldl (fun w t => w.dropTask t) W) := by
+      intro l
+      induction l with
+      | nil => intro W _ h; exact h
+      | cons t l ih =>
+        intro W hl h
+        simp only [List.foldl_cons]
+        exact ih _ (fun x hx => hl x (by simp [hx])) (dropTask_na W t (hl t (by simp)) h)
+    refine ⟨hsok, by rw [q.1.alive c]; exact hw.alive, by rw [q.1.len]; exact hw.inr, q.2, ?_,
+      nab_modCmd _ _ (hN (w.cmd c).tasks.values w hw.hf.t hw.na), ?_⟩
     · refine h1.modCmd _ ?_ ?_
       · intro x t' ht'; simp [Slab.values] at ht'
       · intro x t' ht'; exact Or.inl ht'
@@ -518,7 +590,8 @@ theorem CL.modCmd_out {c : Nat} {w : World} (h : CL c w) (f : CmdSt → CmdSt) (
   refine ⟨(SOk.step (w1 := w.modCmd c f) h.sok rfl hsk).1, by rw [cmd_modCmd_keep (·.alive) w c f ha]; exact h.alive,
     by simp only [World.modCmd, modifyNth_length]; exact h.inr,
     h.hf.modCmd _ (fun x t hx => Or.inl (by rw [ht] at hx; exact hx)) (fun x t hx => Or.inl (by rw [hs] at hx; exact hx)),
-    h.sp.modCmd _ (fun x t hx => Or.inl (by rw [ht] at hx; exact hx)) (fun x t hx => Or.inl (by rw [hs] at hx; exact hx)), ?_⟩
+    h.sp.modCmd _ (fun x t hx => Or.inl (by rw [ht] at hx; exact hx)) (fun x t hx => Or.inl (by rw [hs] at hx; exact hx)),
+    nab_modCmd _ _ h.na, ?_⟩
   intro tid t hg hne hd
   rw [et] at hg; rw [er]; exact h.nd tid t hg hne hd
 
@@ -593,10 +666,50 @@ theorem rd_dropReq {c x : Nat} {w : World} (r : Resolve) (h : RD c x w) : RD c x
   | once l => exact rd_dropSender l h
   | many l => exact rd_dropSender l h
 
+theorem nab_dropSender (w : World) (l : Nat) (h : NAb w) : NAb (w.dropSender l) := by
+  unfold World.dropSender
+  simp only
+  split
+  · exact nab_modLeaf _ _ h
+  · split
+    · exact nab_wake _ (nab_modLeaf _ _ h)
+    · exact nab_modLeaf _ _ h
+
+theorem nab_resolveReq (r : Resolve) (v : Val) (w : World) (h : NAb w) : NAb (resolveReq r v w).2.2 := by
+  have h2 : ∀ l, NAb (match (w.leaf l).waker with
+      | some wk => (w.modLeaf l fun lf => { lf with queue := lf.queue ++ [v], waker := none }).wake wk
+      | none => w.modLeaf l fun lf => { lf with queue := lf.queue ++ [v], waker := none }) := by
+    intro l
+    split
+    · exact nab_wake _ (nab_modLeaf _ _ h)
+    · exact nab_modLeaf _ _ h
+  unfold resolveReq
+  cases r with
+  | never => exact h
+  | gone => exact h
+  | once l =>
+    simp only
+    split
+    · exact nab_dropSender _ l (h2 l)
+    · exact nab_dropSender _ l h
+  | many l =>
+    simp only
+    split
+    · exact h2 l
+    · exact h
+
+theorem nab_dropReq (r : Resolve) (w : World) (h : NAb w) : NAb (dropReq r w).2 := by
+  unfold dropReq
+  cases r with
+  | never => exact h
+  | gone => exact h
+  | once l => exact nab_dropSender w l h
+  | many l => exact nab_dropSender w l h
+
 /-- a step of the shell that leaves every task slab and spawn queue alone (`TK0`) and only adds to ready queues -/
 theorem CL.shell {c : Nat} {w w' : World} (h : CL c w) (sk : SOk w') (q : QS none w w') (tk : TK0 w w')
-    (rd : ∀ x, RD c x w → RD c x w') : CL c w' := by
-  refine ⟨sk, by rw [q.alive c]; exact h.alive, by rw [q.len]; exact h.inr, h.hf.of_qs_none q, h.sp.tk0 tk, ?_⟩
+    (rd : ∀ x, RD c x w → RD c x w') (na : NAb w') : CL c w' := by
+  refine ⟨sk, by rw [q.alive c]; exact h.alive, by rw [q.len]; exact h.inr, h.hf.of_qs_none q, h.sp.tk0 tk, na, ?_⟩
   intro tid t hg hne hd
   rw [tk.tasks c] at hg
   exact rd tid (h.nd tid t hg hne hd)
@@ -645,7 +758,7 @@ theorem Direct.step_cl (d : Direct) (a : Action) (o : Obs) (d' : Direct) (h : d.
         obtain ⟨_, _, rfl⟩ := hr
         exact Direct.observe_cl _ _ _ _ h
           (hw.shell (resolveReq_keeps e.res v d.w hw.sok).1 (resolveReq_qs none e.res v d.w) (tk0_resolveReq e.res v d.w)
-            (fun x hx => rd_resolveReq e.res v hx))
+            (fun x hx => rd_resolveReq e.res v hx) (nab_resolveReq e.res v d.w hw.na))
   | drop k =>
     simp only at h
     split at h
@@ -659,15 +772,16 @@ theorem Direct.step_cl (d : Direct) (a : Action) (o : Obs) (d' : Direct) (h : d.
         obtain ⟨_, rfl⟩ := hr
         exact Direct.observe_cl _ _ _ _ h
           (hw.shell (dropReq_keeps e.res d.w hw.sok).1 (dropReq_qs none e.res d.w) (tk0_dropReq e.res d.w)
-            (fun x hx => rd_dropReq e.res hx))
+            (fun x hx => rd_dropReq e.res hx) (nab_dropReq e.res d.w hw.na))
   | abort n =>
     simp only at h
     refine Direct.observe_cl _ _ _ _ h ?_
     show CL d.cid (doAbort n d.w)
     unfold doAbort
     split
-    · exact hw.shell (Keeps.of_step hw.sok (ns_abortCmd d.w _) (SOkN.abortCmd hw.sok _)).1 (abortCmd_qs none d.w _)
-        ((tk_abortCmd d.w _)) (fun x hx => rd_abortCmd _ hx)
+    · rename_i hfind
+      rw [hw.na.2] at hfind
+      simp at hfind
     · exact hw
   | poll => exact Direct.observe_cl _ _ _ _ h hw
   | ev _ _ => simp at h
@@ -682,7 +796,16 @@ open M.Rt
 theorem CL_init (is : List Instr) (hf : hostFreeIs is = true) (hs : simpleIs is = true) (canon : Bool) :
     CL (Direct.new (.task is) canon).cid (Direct.new (.task is) canon).w := by
   have g := GInv_init is hf canon
-  refine ⟨g.ctx.sok, g.ctx.alive, g.ctx.inr, g.ctx.own.hfc, ?_, ?_⟩
+  refine ⟨g.ctx.sok, g.ctx.alive, g.ctx.inr, g.ctx.own.hfc, ?_, ?_, ?_⟩
+  rotate_left
+  · constructor
+    · intro m hm
+      unfold Direct.new at hm
+      simp [instantiate, newCmd, World.newMeta] at hm
+      subst hm; rfl
+    · unfold Direct.new
+      simp [instantiate, newCmd, World.newMeta]
+  rotate_right
   · constructor
     · intro t ht
       unfold Direct.new at ht
@@ -767,3 +890,143 @@ theorem deadOnly_of_goneOnly : ∀ (b : Block), simpleB b = true → goneOnlyB b
   exact key _ b (Nat.le_refl _)
 
 end M.Rt
+
+namespace M.Rt
+
+theorem settleLoop_ready (rt) (c : Nat) : ∀ (f : Nat) (w w' : World), settleLoop rt f c w = some w' → (w'.cmd c).ready = [] := by
+  intro f
+  induction f with
+  | zero => intro w w' h; simp [settleLoop] at h
+  | succ f ih =>
+    intro w w' h
+    unfold settleLoop at h
+    simp only at h
+    split at h
+    · rename_i he
+      simp only [Option.some.injEq] at h; subst h
+      simpa using he
+    · split at h
+      · cases h
+      · exact ih _ w' h
+
+theorem isDone_ready (c : Nat) (w : World) (d : Bool) (w' : World) (h : isDone c w = some (d, w')) (hq : NAb w) :
+    (w'.cmd c).ready = [] := by
+  unfold isDone at h
+  split at h
+  · cases h
+  · rename_i w1 hs
+    simp only [Option.some.injEq, Prod.mk.injEq] at h
+    obtain ⟨_, rfl⟩ := h
+    unfold runUntilSettled runUntilSettledF at hs
+    split at hs
+    · rename_i hab
+      unfold World.aborted at hab
+      rw [hq.getMeta] at hab
+      cases hab
+    · exact settleLoop_ready _ c _ w w1 hs
+
+end M.Rt
+
+namespace M.Hosts
+open M.Rt
+
+theorem Direct.observe_ready (res : String) (d : Direct) (o : Obs) (d' : Direct) (h : d.observe res = some (o, d'))
+    (hw : CL d.cid d.w) : (d'.w.cmd d'.cid).ready = [] := by
+  unfold Direct.observe at h
+  cases h1 : takeEffects d.cid d.w with
+  | none => simp [h1] at h
+  | some p1 =>
+    obtain ⟨effs, w1⟩ := p1
+    have k1 := takeEffects_cl _ _ _ _ h1 hw
+    cases h2 : takeEvents d.cid w1 with
+    | none => simp [h1, h2] at h
+    | some p2 =>
+      obtain ⟨evs, w2⟩ := p2
+      have k2 := takeEvents_cl _ _ _ _ h2 k1
+      cases h3 : isDone d.cid w2 with
+      | none => simp [h1, h2, h3] at h
+      | some p3 =>
+        obtain ⟨dn, w3⟩ := p3
+        have k3 := isDone_ready _ _ _ _ h3 k2.na
+        simp [h1, h2, h3] at h
+        obtain ⟨_, rfl⟩ := h
+        exact k3
+
+end M.Hosts
+
+namespace M.Hosts
+open M.Rt
+
+theorem Direct.step_obs (d : Direct) (a : Action) (o : Obs) (d' : Direct) (h : d.step a = some (o, d'))
+    (hw : CL d.cid d.w) : ∃ res d0, CL (Direct.cid d0) (Direct.w d0) ∧ Direct.observe res d0 = some (o, d') := by
+  unfold Direct.step at h
+  cases a with
+  | res k v =>
+    simp only at h
+    split at h
+    · exact ⟨_, _, hw, h⟩
+    · rename_i reqs res w1 hr
+      unfold shellResolve at hr
+      split at hr
+      · cases hr
+      · rename_i e _
+        simp only [Option.some.injEq, Prod.mk.injEq] at hr
+        obtain ⟨_, _, rfl⟩ := hr
+        refine ⟨_, _, ?_, h⟩
+        exact (hw.shell (resolveReq_keeps e.res v d.w hw.sok).1 (resolveReq_qs none e.res v d.w) (tk0_resolveReq e.res v d.w)
+            (fun x hx => rd_resolveReq e.res v hx) (nab_resolveReq e.res v d.w hw.na))
+  | drop k =>
+    simp only at h
+    split at h
+    · exact ⟨_, _, hw, h⟩
+    · rename_i reqs w1 hr
+      unfold shellDrop at hr
+      split at hr
+      · cases hr
+      · rename_i e _
+        simp only [Option.some.injEq, Prod.mk.injEq] at hr
+        obtain ⟨_, rfl⟩ := hr
+        refine ⟨_, _, ?_, h⟩
+        exact (hw.shell (dropReq_keeps e.res d.w hw.sok).1 (dropReq_qs none e.res d.w) (tk0_dropReq e.res d.w)
+            (fun x hx => rd_dropReq e.res hx) (nab_dropReq e.res d.w hw.na))
+  | abort n =>
+    simp only at h
+    refine ⟨_, _, ?_, h⟩
+    show CL d.cid (doAbort n d.w)
+    unfold doAbort
+    split
+    · rename_i hfind
+      rw [hw.na.2] at hfind
+      simp at hfind
+    · exact hw
+  | poll => exact ⟨_, _, hw, h⟩
+  | ev _ _ => simp at h
+  | rawRes _ _ _ => simp at h
+  | rawEv _ _ => simp at h
+
+/-- the invariants and the empty ready queue after every step -/
+theorem Direct.step_clr (d : Direct) (a : Action) (o : Obs) (d' : Direct) (h : d.step a = some (o, d'))
+    (hw : CL d.cid d.w ∧ (d.w.cmd d.cid).ready = []) : CL d'.cid d'.w ∧ (d'.w.cmd d'.cid).ready = [] := by
+  obtain ⟨res, d0, h0, ho⟩ := Direct.step_obs d a o d' h hw.1
+  exact ⟨Direct.observe_cl _ _ _ _ ho h0, Direct.observe_ready _ _ _ _ ho h0⟩
+
+theorem runDirect_ready (is : List Instr) (hf : hostFreeIs is = true) (hs : simpleIs is = true) (canon : Bool)
+    (acts : List Action) (os : List Obs) (d : Direct) (h : runDirect (.task is) canon acts = some (os, d)) :
+    (d.w.cmd d.cid).ready = [] := by
+  unfold runDirect at h
+  have h0 := CL_init is hf hs canon
+  cases h1 : (Direct.new (.task is) canon).observe "-" with
+  | none => simp [h1] at h
+  | some p1 =>
+    obtain ⟨o, d1⟩ := p1
+    have k1 : CL d1.cid d1.w ∧ (d1.w.cmd d1.cid).ready = [] :=
+      ⟨Direct.observe_cl _ _ _ _ h1 h0, Direct.observe_ready _ _ _ _ h1 h0⟩
+    cases h2 : runSteps Direct.step d1 acts with
+    | none => simp [h1, h2] at h
+    | some p2 =>
+      obtain ⟨os2, d2⟩ := p2
+      simp [h1, h2] at h
+      obtain ⟨_, rfl⟩ := h
+      exact (runSteps_inv Direct.step (fun d => CL d.cid d.w ∧ (d.w.cmd d.cid).ready = []) Direct.step_clr acts d1 os2 _ h2 k1).2
+
+end M.Hosts
